@@ -141,6 +141,22 @@ func callerKey(c *core.Ctx, cl *core.Call) string {
 	return u.Key
 }
 
+// hasSuffixSlash: the branch condition is strings.HasSuffix(<param pn>, "/") —
+// the library spelling of `p[len(p)-1] == '/'` (true edge establishes it).
+func hasSuffixSlash(x *core.Unit, br core.Branch, pn string) int {
+	if br.IsCase {
+		return 0
+	}
+	ce, key := x.AsCall(br.Cond)
+	if ce == nil || key != "strings.HasSuffix" || len(ce.Args) != 2 || !isLocal(x.Info(), ce.Args[0], pn) {
+		return 0
+	}
+	if s, ok := core.ConstString(x.Info(), ce.Args[1]); ok && s == "/" {
+		return 1
+	}
+	return 0
+}
+
 // ---- small matchers ----
 
 // selPath renders a selector chain through method calls: s.server.Opts().PingInterval()
